@@ -1594,6 +1594,19 @@ public:
         o.clear();
     }
     VSTD_INLINE void merge(set &&o) { merge(o); }
+    VSTD_INLINE pair<const K *, bool> emplace(const K &k) { return insert(k); }
+    bool operator==(const set &o) const
+    {
+        if (mN != o.mN) {
+            return false;
+        }
+        for (size_t i = 0; i < mN; ++i) {
+            if (!(ptr()[i] == o.ptr()[i])) {
+                return false;
+            }
+        }
+        return true;
+    }
 
 private:
     size_t lower(const K &k) const
